@@ -1,4 +1,756 @@
-//! I/O-level cases (Frame::read/write over instrumented streams, SerialSignBus, Odk, port setup).
-pub fn eval_io_case(_t: &[&str]) -> Option<String> {
-    None
+//! I/O-level cases: Frame::read/write over instrumented streams (RD, WR), SerialSignBus (SB, TM),
+//! Odk (OD), the full serial path (WB) and port setup (PT).
+use std::cell::RefCell;
+use std::collections::VecDeque;
+use std::io::{self, Read, Write};
+use std::rc::Rc;
+use std::time::{Duration, Instant};
+
+use flipdot_core::{Frame, FrameError, SignBus};
+use flipdot_serial::SerialSignBus;
+use flipdot_testing::{Odk, OdkError, VirtualSignBus};
+use serial_core::{BaudRate, CharSize, FlowControl, Parity, PortSettings, SerialDevice, SerialPortSettings, StopBits};
+
+use crate::eval::{guarded, mkframe, parse_signs, run_cop, str_outcome, SharedVBus};
+use crate::proto::*;
+
+#[derive(Clone, Copy, Debug)]
+pub enum RdEv {
+    Data(usize),
+    Intr,
+    Fail,
+}
+#[derive(Clone, Copy, Debug)]
+pub enum WrEv {
+    Accept(usize),
+    Intr,
+    Zero,
+    Fail,
+}
+
+pub fn rd_ev_of_str(s: &str) -> RdEv {
+    match s.as_bytes()[0] {
+        b'D' => RdEv::Data(s[1..].parse().unwrap()),
+        b'I' => RdEv::Intr,
+        b'F' => RdEv::Fail,
+        _ => panic!("bad rd_ev"),
+    }
+}
+pub fn wr_ev_of_str(s: &str) -> WrEv {
+    match s.as_bytes()[0] {
+        b'A' => WrEv::Accept(s[1..].parse().unwrap()),
+        b'I' => WrEv::Intr,
+        b'Z' => WrEv::Zero,
+        b'F' => WrEv::Fail,
+        _ => panic!("bad wr_ev"),
+    }
+}
+
+/// A stream that honours a per-call schedule for ANY request size, so that an implementation
+/// asking for more than one byte at a time would visibly over-consume.
+pub struct SchedReader {
+    pub content: Vec<u8>,
+    pub pos: usize,
+    pub sched: VecDeque<RdEv>,
+    pub calls: usize,
+    pub last_read_end: Option<Instant>,
+    pub first_read_start: Option<Instant>,
+}
+impl SchedReader {
+    pub fn new(content: Vec<u8>, sched: Vec<RdEv>) -> Self {
+        SchedReader { content, pos: 0, sched: sched.into(), calls: 0, last_read_end: None, first_read_start: None }
+    }
+    pub fn remaining(&self) -> &[u8] {
+        &self.content[self.pos..]
+    }
+}
+impl Read for SchedReader {
+    fn read(&mut self, buf: &mut [u8]) -> io::Result<usize> {
+        if self.first_read_start.is_none() {
+            self.first_read_start = Some(Instant::now());
+        }
+        self.calls += 1;
+        let avail = self.content.len() - self.pos;
+        let r = match self.sched.pop_front() {
+            None => Ok(buf.len().min(avail)),
+            Some(RdEv::Data(n)) => Ok(buf.len().min(n + 1).min(avail)),
+            Some(RdEv::Intr) => Err(io::Error::new(io::ErrorKind::Interrupted, "scheduled interrupt")),
+            Some(RdEv::Fail) => Err(io::Error::new(io::ErrorKind::Other, "scheduled failure")),
+        };
+        if let Ok(k) = r {
+            buf[..k].copy_from_slice(&self.content[self.pos..self.pos + k]);
+            self.pos += k;
+        }
+        self.last_read_end = Some(Instant::now());
+        r
+    }
+}
+
+pub struct SchedWriter {
+    pub out: Vec<u8>,
+    pub sched: VecDeque<WrEv>,
+    pub first_write_start: Option<Instant>,
+    pub last_write_end: Option<Instant>,
+}
+impl SchedWriter {
+    pub fn new(sched: Vec<WrEv>) -> Self {
+        SchedWriter { out: vec![], sched: sched.into(), first_write_start: None, last_write_end: None }
+    }
+}
+impl Write for SchedWriter {
+    fn write(&mut self, buf: &[u8]) -> io::Result<usize> {
+        if self.first_write_start.is_none() {
+            self.first_write_start = Some(Instant::now());
+        }
+        let r = match self.sched.pop_front() {
+            None => Ok(buf.len()),
+            Some(WrEv::Accept(n)) => Ok(buf.len().min(n + 1)),
+            Some(WrEv::Intr) => Err(io::Error::new(io::ErrorKind::Interrupted, "scheduled interrupt")),
+            Some(WrEv::Zero) => Ok(0),
+            Some(WrEv::Fail) => Err(io::Error::new(io::ErrorKind::Other, "scheduled failure")),
+        };
+        if let Ok(k) = r {
+            self.out.extend_from_slice(&buf[..k]);
+        }
+        self.last_write_end = Some(Instant::now());
+        r
+    }
+    fn flush(&mut self) -> io::Result<()> {
+        Ok(())
+    }
+}
+
+// ---------------------------------------------------------------------------------------------
+// A serial device built from the two scheduled streams plus settings with injectable failures.
+
+#[derive(Clone, Copy, Debug, PartialEq, Eq)]
+pub enum FailAt {
+    None,
+    Read,
+    Baud,
+    Write,
+    Timeout,
+}
+
+#[derive(Clone, Copy, Debug)]
+pub struct FSettings {
+    pub inner: PortSettings,
+    pub fail_baud: bool,
+}
+impl SerialPortSettings for FSettings {
+    fn baud_rate(&self) -> Option<BaudRate> {
+        self.inner.baud_rate()
+    }
+    fn char_size(&self) -> Option<CharSize> {
+        self.inner.char_size()
+    }
+    fn parity(&self) -> Option<Parity> {
+        self.inner.parity()
+    }
+    fn stop_bits(&self) -> Option<StopBits> {
+        self.inner.stop_bits()
+    }
+    fn flow_control(&self) -> Option<FlowControl> {
+        self.inner.flow_control()
+    }
+    fn set_baud_rate(&mut self, baud_rate: BaudRate) -> serial_core::Result<()> {
+        if self.fail_baud {
+            return Err(serial_core::Error::new(serial_core::ErrorKind::InvalidInput, "baud refused"));
+        }
+        self.inner.set_baud_rate(baud_rate)
+    }
+    fn set_char_size(&mut self, char_size: CharSize) {
+        self.inner.set_char_size(char_size)
+    }
+    fn set_parity(&mut self, parity: Parity) {
+        self.inner.set_parity(parity)
+    }
+    fn set_stop_bits(&mut self, stop_bits: StopBits) {
+        self.inner.set_stop_bits(stop_bits)
+    }
+    fn set_flow_control(&mut self, flow_control: FlowControl) {
+        self.inner.set_flow_control(flow_control)
+    }
+}
+
+pub struct TestPort {
+    pub rd: SchedReader,
+    pub wr: SchedWriter,
+    pub settings: PortSettings,
+    pub fail: FailAt,
+    pub timeout: Option<Duration>,
+    pub config_calls: Vec<&'static str>,
+}
+impl TestPort {
+    pub fn new(rd: SchedReader, wr: SchedWriter) -> Self {
+        TestPort {
+            rd,
+            wr,
+            settings: PortSettings {
+                baud_rate: BaudRate::Baud110,
+                char_size: CharSize::Bits7,
+                parity: Parity::ParityEven,
+                stop_bits: StopBits::Stop2,
+                flow_control: FlowControl::FlowSoftware,
+            },
+            fail: FailAt::None,
+            timeout: None,
+            config_calls: vec![],
+        }
+    }
+}
+impl Read for TestPort {
+    fn read(&mut self, buf: &mut [u8]) -> io::Result<usize> {
+        self.rd.read(buf)
+    }
+}
+impl Write for TestPort {
+    fn write(&mut self, buf: &[u8]) -> io::Result<usize> {
+        self.wr.write(buf)
+    }
+    fn flush(&mut self) -> io::Result<()> {
+        Ok(())
+    }
+}
+impl SerialDevice for TestPort {
+    type Settings = FSettings;
+    fn read_settings(&self) -> serial_core::Result<FSettings> {
+        if self.fail == FailAt::Read {
+            return Err(serial_core::Error::new(serial_core::ErrorKind::NoDevice, "read_settings refused"));
+        }
+        Ok(FSettings { inner: self.settings, fail_baud: self.fail == FailAt::Baud })
+    }
+    fn write_settings(&mut self, settings: &FSettings) -> serial_core::Result<()> {
+        self.config_calls.push("write_settings");
+        if self.fail == FailAt::Write {
+            return Err(serial_core::Error::new(serial_core::ErrorKind::NoDevice, "write_settings refused"));
+        }
+        self.settings = settings.inner;
+        Ok(())
+    }
+    fn timeout(&self) -> Duration {
+        self.timeout.unwrap_or(Duration::from_secs(0))
+    }
+    fn set_timeout(&mut self, t: Duration) -> serial_core::Result<()> {
+        self.config_calls.push("set_timeout");
+        if self.fail == FailAt::Timeout {
+            return Err(serial_core::Error::new(serial_core::ErrorKind::InvalidInput, "set_timeout refused"));
+        }
+        self.timeout = Some(t);
+        Ok(())
+    }
+    fn set_rts(&mut self, _: bool) -> serial_core::Result<()> {
+        Ok(())
+    }
+    fn set_dtr(&mut self, _: bool) -> serial_core::Result<()> {
+        Ok(())
+    }
+    fn read_cts(&mut self) -> serial_core::Result<bool> {
+        Ok(true)
+    }
+    fn read_dsr(&mut self) -> serial_core::Result<bool> {
+        Ok(true)
+    }
+    fn read_ri(&mut self) -> serial_core::Result<bool> {
+        Ok(false)
+    }
+    fn read_cd(&mut self) -> serial_core::Result<bool> {
+        Ok(true)
+    }
+}
+
+fn str_box_err(e: &(dyn std::error::Error + Send + Sync + 'static)) -> String {
+    match e.downcast_ref::<FrameError>() {
+        Some(fe) => str_ferr(fe),
+        None => "ER OTHER".to_string(),
+    }
+}
+
+// ---------------------------------------------------------------------------------------------
+// the full serial path: controller port <-> pipes <-> Odk port
+
+struct Pipes {
+    a: VecDeque<u8>, // controller -> bridge
+    b: VecDeque<u8>, // bridge -> controller
+    bridge_log: Vec<String>,
+}
+struct OdkPort {
+    sh: Rc<RefCell<Pipes>>,
+    settings: PortSettings,
+}
+impl Read for OdkPort {
+    fn read(&mut self, buf: &mut [u8]) -> io::Result<usize> {
+        let mut sh = self.sh.borrow_mut();
+        let mut k = 0;
+        while k < buf.len() {
+            match sh.a.pop_front() {
+                Some(x) => {
+                    buf[k] = x;
+                    k += 1;
+                }
+                None => break,
+            }
+        }
+        if k == 0 && !buf.is_empty() {
+            return Err(io::Error::new(io::ErrorKind::TimedOut, "no data"));
+        }
+        Ok(k)
+    }
+}
+impl Write for OdkPort {
+    fn write(&mut self, buf: &[u8]) -> io::Result<usize> {
+        self.sh.borrow_mut().b.extend(buf.iter());
+        Ok(buf.len())
+    }
+    fn flush(&mut self) -> io::Result<()> {
+        Ok(())
+    }
+}
+macro_rules! plain_device {
+    ($t:ty) => {
+        impl SerialDevice for $t {
+            type Settings = PortSettings;
+            fn read_settings(&self) -> serial_core::Result<PortSettings> {
+                Ok(self.settings)
+            }
+            fn write_settings(&mut self, s: &PortSettings) -> serial_core::Result<()> {
+                self.settings = *s;
+                Ok(())
+            }
+            fn timeout(&self) -> Duration {
+                Duration::from_secs(1)
+            }
+            fn set_timeout(&mut self, _: Duration) -> serial_core::Result<()> {
+                Ok(())
+            }
+            fn set_rts(&mut self, _: bool) -> serial_core::Result<()> {
+                Ok(())
+            }
+            fn set_dtr(&mut self, _: bool) -> serial_core::Result<()> {
+                Ok(())
+            }
+            fn read_cts(&mut self) -> serial_core::Result<bool> {
+                Ok(true)
+            }
+            fn read_dsr(&mut self) -> serial_core::Result<bool> {
+                Ok(true)
+            }
+            fn read_ri(&mut self) -> serial_core::Result<bool> {
+                Ok(false)
+            }
+            fn read_cd(&mut self) -> serial_core::Result<bool> {
+                Ok(true)
+            }
+        }
+    };
+}
+plain_device!(OdkPort);
+
+type Bridge = Odk<OdkPort, SharedVBus>;
+struct CtrlPort {
+    sh: Rc<RefCell<Pipes>>,
+    odk: Rc<RefCell<Bridge>>,
+    settings: PortSettings,
+}
+impl Read for CtrlPort {
+    fn read(&mut self, buf: &mut [u8]) -> io::Result<usize> {
+        let mut sh = self.sh.borrow_mut();
+        let mut k = 0;
+        while k < buf.len() {
+            match sh.b.pop_front() {
+                Some(x) => {
+                    buf[k] = x;
+                    k += 1;
+                }
+                None => break,
+            }
+        }
+        if k == 0 && !buf.is_empty() {
+            return Err(io::Error::new(io::ErrorKind::TimedOut, "no reply"));
+        }
+        Ok(k)
+    }
+}
+impl Write for CtrlPort {
+    fn write(&mut self, buf: &[u8]) -> io::Result<usize> {
+        self.sh.borrow_mut().a.extend(buf.iter());
+        if buf.contains(&b'\n') {
+            // a complete line is on the wire: let the bridge handle it
+            let r = guarded(|| self.odk.borrow_mut().process_message());
+            let s = match r {
+                None => "PANIC".to_string(),
+                Some(Ok(())) => "OK".to_string(),
+                Some(Err(OdkError::Communication { source })) => format!("COMM {}", str_ferr(&source)),
+                Some(Err(OdkError::Bus { .. })) => "BUSERR".to_string(),
+                Some(Err(_)) => "ER ???".to_string(),
+            };
+            self.sh.borrow_mut().bridge_log.push(s);
+        }
+        Ok(buf.len())
+    }
+    fn flush(&mut self) -> io::Result<()> {
+        Ok(())
+    }
+}
+plain_device!(CtrlPort);
+
+fn default_settings() -> PortSettings {
+    PortSettings {
+        baud_rate: BaudRate::Baud9600,
+        char_size: CharSize::Bits8,
+        parity: Parity::ParityNone,
+        stop_bits: StopBits::Stop1,
+        flow_control: FlowControl::FlowNone,
+    }
+}
+
+// ---------------------------------------------------------------------------------------------
+
+const BAUDS: [BaudRate; 11] = [
+    BaudRate::Baud110,
+    BaudRate::Baud300,
+    BaudRate::Baud600,
+    BaudRate::Baud1200,
+    BaudRate::Baud2400,
+    BaudRate::Baud4800,
+    BaudRate::Baud9600,
+    BaudRate::Baud19200,
+    BaudRate::Baud38400,
+    BaudRate::Baud57600,
+    BaudRate::Baud115200,
+];
+
+fn str_settings(s: &PortSettings) -> String {
+    let baud = match s.baud_rate {
+        BaudRate::BaudOther(n) => format!("O{}", n),
+        b => BAUDS.iter().position(|x| *x == b).map(|i| i.to_string()).unwrap_or("?".into()),
+    };
+    let cs = match s.char_size {
+        CharSize::Bits5 => "5",
+        CharSize::Bits6 => "6",
+        CharSize::Bits7 => "7",
+        CharSize::Bits8 => "8",
+    };
+    let par = match s.parity {
+        Parity::ParityNone => "N",
+        Parity::ParityOdd => "O",
+        Parity::ParityEven => "E",
+    };
+    let stop = match s.stop_bits {
+        StopBits::Stop1 => "1",
+        StopBits::Stop2 => "2",
+    };
+    let flow = match s.flow_control {
+        FlowControl::FlowNone => "N",
+        FlowControl::FlowSoftware => "S",
+        FlowControl::FlowHardware => "H",
+    };
+    format!("{} {} {} {} {}", baud, cs, par, stop, flow)
+}
+
+fn split_at<'a>(sep: &str, l: &'a [&'a str]) -> (&'a [&'a str], &'a [&'a str]) {
+    match l.iter().position(|x| *x == sep) {
+        Some(i) => (&l[..i], &l[i + 1..]),
+        None => (l, &[]),
+    }
+}
+
+pub fn eval_io_case(t: &[&str]) -> Option<String> {
+    match t[0] {
+        "RD" => {
+            let k: usize = t[1].parse().unwrap();
+            let mut r = SchedReader::new(bytes_of_hex(t[2]), t[3..].iter().map(|s| rd_ev_of_str(s)).collect());
+            let mut outs = vec![];
+            for _ in 0..k {
+                let s = match guarded(|| Frame::read(&mut r)) {
+                    None => "PANIC".to_string(),
+                    Some(Ok(f)) => format!("OK {}", str_frame(&f)),
+                    Some(Err(e)) => str_ferr(&e),
+                };
+                outs.push(s);
+            }
+            Some(format!("{} | {}", outs.join(" ; "), hex_of_bytes(r.remaining())))
+        }
+        "WR" => {
+            let f = mkframe(t[1].parse().unwrap(), t[2].parse().unwrap(), bytes_of_hex(t[3]), false);
+            let mut w = SchedWriter::new(t[4..].iter().map(|s| wr_ev_of_str(s)).collect());
+            let s = match guarded(|| f.write(&mut w)) {
+                None => "PANIC".to_string(),
+                Some(Ok(())) => "OK".to_string(),
+                Some(Err(e)) => str_ferr(&e),
+            };
+            Some(format!("{} | {}", s, hex_of_bytes(&w.out)))
+        }
+        "SB" | "TM" => {
+            let (rs, ws) = split_at("/", &t[3..]);
+            let timing = t[0] == "TM";
+            let trials = if timing { 3 } else { 1 };
+            let mut min_send = Duration::from_secs(3600);
+            let mut min_recv = Duration::from_secs(3600);
+            let mut min_pre = Duration::from_secs(3600);
+            let mut result = String::new();
+            for _ in 0..trials {
+                let rd = SchedReader::new(bytes_of_hex(t[2]), rs.iter().map(|s| rd_ev_of_str(s)).collect());
+                let wr = SchedWriter::new(ws.iter().map(|s| wr_ev_of_str(s)).collect());
+                let port = TestPort::new(rd, wr);
+                let mut bus = match SerialSignBus::try_new(port) {
+                    Ok(b) => b,
+                    Err(_) => return Some("ER SETUP".to_string()),
+                };
+                let m = msg_of_str(t[1]);
+                let start = Instant::now();
+                let r = guarded(|| bus.process_message(m));
+                let end = Instant::now();
+                let port = bus.port();
+                let res = match &r {
+                    None => "PANIC".to_string(),
+                    Some(Ok(reply)) => format!("OK {}", str_omsg(reply)),
+                    Some(Err(e)) => {
+                        let s = str_box_err(e.as_ref());
+                        s
+                    }
+                };
+                result = format!("{} | {} | {}", res, hex_of_bytes(&port.wr.out), hex_of_bytes(port.rd.remaining()));
+                if !timing {
+                    break;
+                }
+                if let Some(we) = port.wr.last_write_end {
+                    let next = port.rd.first_read_start.unwrap_or(end);
+                    min_send = min_send.min(next.duration_since(we));
+                }
+                if let Some(ws) = port.wr.first_write_start {
+                    min_pre = min_pre.min(ws.duration_since(start));
+                }
+                if let Some(re) = port.rd.last_read_end {
+                    min_recv = min_recv.min(end.duration_since(re));
+                } else {
+                    min_recv = Duration::from_secs(0);
+                }
+                // an unpaced verdict cannot be overturned by more trials
+                if min_send < Duration::from_millis(30) && min_recv < Duration::from_millis(100) {
+                    break;
+                }
+            }
+            if timing {
+                let send = (min_send >= Duration::from_millis(30)) as u8;
+                let recv = (min_recv >= Duration::from_millis(100)) as u8;
+                // a delay of either pacing amount anywhere else
+                let other = min_pre >= Duration::from_millis(30)
+                    || (send == 1 && min_send >= Duration::from_millis(100) && recv == 0 && false);
+                Some(format!("send={} recv={}{}", send, recv, if other { " other" } else { "" }))
+            } else {
+                Some(result)
+            }
+        }
+        "OD" => {
+            let k: usize = t[1].parse().unwrap();
+            let (signs, rest) = parse_signs(k, &t[2..]);
+            let (prior, rest) = split_at("|", rest);
+            let (prior, rest) = if prior.is_empty() && !rest.is_empty() && rest.contains(&"|") { split_at("|", rest) } else { (prior, rest) };
+            let vbus = Rc::new(RefCell::new(VirtualSignBus::new(signs)));
+            for m in prior {
+                let msg = msg_of_str(m);
+                if guarded(|| vbus.borrow_mut().process_message(msg).map(|_| ())).is_none() {
+                    return Some("PANIC-PRIOR".to_string());
+                }
+            }
+            let input = bytes_of_hex(rest[0]);
+            let nsteps: usize = rest[1].parse().unwrap();
+            let wsched: Vec<WrEv> = rest[2..].iter().map(|s| wr_ev_of_str(s)).collect();
+            let port = TestPort::new(SchedReader::new(input, vec![]), SchedWriter::new(wsched));
+            // spy bus: remember what the bridge forwarded
+            struct Spy {
+                inner: SharedVBus,
+                last: Rc<RefCell<Option<String>>>,
+            }
+            impl std::fmt::Debug for Spy {
+                fn fmt(&self, f: &mut std::fmt::Formatter<'_>) -> std::fmt::Result {
+                    write!(f, "Spy")
+                }
+            }
+            impl SignBus for Spy {
+                fn process_message<'a>(
+                    &mut self,
+                    message: flipdot_core::Message<'_>,
+                ) -> Result<Option<flipdot_core::Message<'a>>, Box<dyn std::error::Error + Send + Sync>> {
+                    *self.last.borrow_mut() = Some(str_msg(&message));
+                    self.inner.process_message(message)
+                }
+            }
+            let last = Rc::new(RefCell::new(None));
+            let mut odk = match Odk::try_new(port, Spy { inner: SharedVBus(vbus.clone()), last: last.clone() }) {
+                Ok(o) => o,
+                Err(_) => return Some("ER SETUP".to_string()),
+            };
+            let mut outs = vec![];
+            for _ in 0..nsteps {
+                *last.borrow_mut() = None;
+                let r = guarded(|| odk.process_message());
+                let s = match r {
+                    None => "PANIC".to_string(),
+                    Some(Ok(())) => "OK".to_string(),
+                    Some(Err(OdkError::Communication { source })) => format!("COMM {}", str_ferr(&source)),
+                    Some(Err(OdkError::Bus { .. })) => "BUSERR".to_string(),
+                    Some(Err(_)) => "ER ???".to_string(),
+                };
+                let fwd = last.borrow().clone().unwrap_or_else(|| "-".to_string());
+                outs.push(format!("{} fwd={}", s, fwd));
+            }
+            // Odk has no accessor for its port: recover the streams through a raw look at the
+            // fields is impossible, so the port is observed through shared handles instead.
+            // (TestPort is moved into Odk; we read it back via the debug-free helper below.)
+            let (out_hex, rem_hex) = odk_port_view(&odk);
+            let b = vbus.borrow();
+            let obs_all: Vec<String> = (0..k).map(|i| obs(b.sign(i))).collect();
+            Some(format!("{} | {} | {} | {}", outs.join(" ; "), out_hex, rem_hex, obs_all.join("/")))
+        }
+        "WB" => {
+            let k: usize = t[1].parse().unwrap();
+            let (signs, rest) = parse_signs(k, &t[2..]);
+            let (prior, ops) = split_at("|", rest);
+            let vbus = Rc::new(RefCell::new(VirtualSignBus::new(signs)));
+            for m in prior {
+                let msg = msg_of_str(m);
+                if guarded(|| vbus.borrow_mut().process_message(msg).map(|_| ())).is_none() {
+                    return Some("PANIC-PRIOR".to_string());
+                }
+            }
+            let sh = Rc::new(RefCell::new(Pipes { a: VecDeque::new(), b: VecDeque::new(), bridge_log: vec![] }));
+            let odk = match Odk::try_new(OdkPort { sh: sh.clone(), settings: default_settings() }, SharedVBus(vbus.clone())) {
+                Ok(o) => Rc::new(RefCell::new(o)),
+                Err(_) => return Some("ER SETUP".to_string()),
+            };
+            let sbus = match SerialSignBus::try_new(CtrlPort { sh: sh.clone(), odk: odk.clone(), settings: default_settings() }) {
+                Ok(b) => b,
+                Err(_) => return Some("ER SETUP".to_string()),
+            };
+            let bus: Rc<RefCell<dyn SignBus>> = Rc::new(RefCell::new(sbus));
+            let mut out = String::new();
+            for o in ops {
+                let r = run_cop(o, bus.clone());
+                out.push_str(&str_outcome(&r, false));
+                let b = vbus.borrow();
+                for i in 0..k {
+                    out.push('/');
+                    out.push_str(&obs(b.sign(i)));
+                }
+                out.push(' ');
+            }
+            let b = vbus.borrow();
+            let pages: Vec<String> = (0..k).map(|i| str_pages(b.sign(i).pages())).collect();
+            let inbox: Vec<u8> = sh.borrow().b.iter().copied().collect();
+            Some(format!("{}# {} # inbox={}", out, pages.join(";"), hex_of_bytes(&inbox)))
+        }
+        "PT" => {
+            let baud = if t[1].starts_with('O') { BaudRate::BaudOther(t[1][1..].parse().unwrap()) } else { BAUDS[t[1].parse::<usize>().unwrap()] };
+            let cs = match t[2] {
+                "5" => CharSize::Bits5,
+                "6" => CharSize::Bits6,
+                "7" => CharSize::Bits7,
+                _ => CharSize::Bits8,
+            };
+            let par = match t[3] {
+                "N" => Parity::ParityNone,
+                "O" => Parity::ParityOdd,
+                _ => Parity::ParityEven,
+            };
+            let stop = if t[4] == "1" { StopBits::Stop1 } else { StopBits::Stop2 };
+            let flow = match t[5] {
+                "N" => FlowControl::FlowNone,
+                "S" => FlowControl::FlowSoftware,
+                _ => FlowControl::FlowHardware,
+            };
+            let fail = match t[6] {
+                "none" => FailAt::None,
+                "read" => FailAt::Read,
+                "baud" => FailAt::Baud,
+                "write" => FailAt::Write,
+                _ => FailAt::Timeout,
+            };
+            let mut port = TestPort::new(SchedReader::new(vec![], vec![]), SchedWriter::new(vec![]));
+            port.settings = PortSettings { baud_rate: baud, char_size: cs, parity: par, stop_bits: stop, flow_control: flow };
+            port.fail = fail;
+            let ctor: Vec<&str> = t[7].split('.').collect();
+            let show = |p: &TestPort| {
+                format!(
+                    "OK {} {}",
+                    str_settings(&p.settings),
+                    p.timeout.map(|d| d.as_millis().to_string()).unwrap_or_else(|| "-".to_string())
+                )
+            };
+            let which = |_e: &serial_core::Error| format!("ER {}", t[6]);
+            Some(match ctor[0] {
+                "CFG" => {
+                    let ms: u64 = ctor[1].parse().unwrap();
+                    match guarded(|| flipdot_serial::configure_port(&mut port, Duration::from_millis(ms))) {
+                        None => "PANIC".to_string(),
+                        Some(Ok(())) => show(&port),
+                        Some(Err(e)) => which(&e),
+                    }
+                }
+                "BUS" => match guarded(|| SerialSignBus::try_new(port)) {
+                    None => "PANIC".to_string(),
+                    Some(Ok(b)) => show(b.port()),
+                    Some(Err(e)) => which(&e),
+                },
+                "ODK" => {
+                    let vb = VirtualSignBus::new(vec![]);
+                    match guarded(|| Odk::try_new(port, vb)) {
+                        None => "PANIC".to_string(),
+                        Some(Ok(o)) => {
+                            let (s, to) = odk_settings_view(&o);
+                            format!("OK {} {}", s, to)
+                        }
+                        Some(Err(e)) => which(&e),
+                    }
+                }
+                _ => panic!("bad ctor"),
+            })
+        }
+        _ => None,
+    }
+}
+
+/// Odk keeps its port private and offers no accessor; its derived Debug prints the port's Debug.
+/// TestPort's Debug is written to expose exactly what we need.
+impl std::fmt::Debug for TestPort {
+    fn fmt(&self, f: &mut std::fmt::Formatter<'_>) -> std::fmt::Result {
+        write!(
+            f,
+            "TESTPORT<{}|{}|{}|{}>",
+            hex_of_bytes(&self.wr.out),
+            hex_of_bytes(self.rd.remaining()),
+            str_settings(&self.settings),
+            self.timeout.map(|d| d.as_millis().to_string()).unwrap_or_else(|| "-".to_string())
+        )
+    }
+}
+
+fn testport_fields<P: serial_core::SerialPort + std::fmt::Debug, B: SignBus + std::fmt::Debug>(odk: &Odk<P, B>) -> Vec<String> {
+    let s = format!("{:?}", odk);
+    let a = s.find("TESTPORT<").expect("no TESTPORT in Debug") + 9;
+    let b = s[a..].find('>').unwrap() + a;
+    s[a..b].split('|').map(|x| x.to_string()).collect()
+}
+
+impl std::fmt::Debug for SharedVBus {
+    fn fmt(&self, f: &mut std::fmt::Formatter<'_>) -> std::fmt::Result {
+        write!(f, "SharedVBus")
+    }
+}
+
+fn odk_port_view<B: SignBus>(odk: &Odk<TestPort, B>) -> (String, String)
+where
+    Odk<TestPort, B>: std::fmt::Debug,
+{
+    let s = format!("{:?}", odk);
+    let a = s.find("TESTPORT<").expect("no TESTPORT in Debug") + 9;
+    let b = s[a..].find('>').unwrap() + a;
+    let f: Vec<&str> = s[a..b].split('|').collect();
+    (f[0].to_string(), f[1].to_string())
+}
+
+fn odk_settings_view(odk: &Odk<TestPort, VirtualSignBus<'static>>) -> (String, String) {
+    let f = testport_fields(odk);
+    (f[2].clone(), f[3].clone())
 }
